@@ -677,3 +677,24 @@ func rawsys(raw bool, trap, a1, a2, a3, a4, a5, a6 uintptr) (r1, r2 uintptr, err
 	}
 	return real.Syscall6(trap, a1, a2, a3, a4, a5, a6)
 }
+
+// Forget marks fd as closed by its owner outside the shim (harness closes with raw close(2)).
+func Forget(fd int) {
+	if L == nil {
+		return
+	}
+	if st := L.fds[fd]; st != nil {
+		st.owner = ""
+	}
+}
+
+// KindOf returns what the ledger knows about fd ("accepted", "dup", "epoll", ...).
+func KindOf(fd int) string {
+	if L == nil {
+		return ""
+	}
+	if st := L.fds[fd]; st != nil && st.owner != "" {
+		return st.kind
+	}
+	return ""
+}
